@@ -420,7 +420,7 @@ func (d *rpcDB) InsertRaw(stream string, ts time.Time, dims bytemap.ByteMap, val
 func (d *rpcDB) Query(sqlString string, isSubQuery bool, subQueryResults [][]interface{}, includeMemStore bool) (core.FlatRowSource, error) {
 	return d.src, nil
 }
-func (d *rpcDB) Follow(f *common.Follow, cb func([]byte, wal.Offset) error) {}
+func (d *rpcDB) Follow(f *common.Follow, cb func([]byte, wal.Offset) error)       {}
 func (d *rpcDB) RegisterQueryHandler(partition int, query planner.QueryClusterFN) {}
 
 func (rn *runner) runRPC(c *Case) (*Outcome, error) {
